@@ -639,8 +639,21 @@ impl Drop for StreamingPayload {
 impl StreamingPayload {
     /// Send payload chunk
     pub async fn send(&self, chunk: Bytes) -> Result<(), SendPacketError> {
-        if let Some(rx) = self.rx.take() {
-            if rx.await.is_err() {
+        // wait until publish packet is encoded; receiver stays in place while
+        // waiting, this call could be cancelled and payload is still owed then
+        let ready = std::future::poll_fn(|cx| {
+            let Some(rx) = self.rx.take() else { return Poll::Ready(None) };
+            match rx.poll_recv(cx) {
+                Poll::Ready(res) => Poll::Ready(Some(res)),
+                Poll::Pending => {
+                    self.rx.set(Some(rx));
+                    Poll::Pending
+                }
+            }
+        })
+        .await;
+        if let Some(res) = ready {
+            if res.is_err() {
                 return Err(SendPacketError::StreamingCancelled);
             }
             log::trace!("Publish is encoded, ready to process payload");
